@@ -691,6 +691,20 @@ output_executor_backup_call (OrcProgram *p, FILE *output)
   int i;
   int need_comma = FALSE;
 
+  /* a double parameter arrives as two 32-bit halves: reassemble it first */
+  for(i=0;i<8;i++){
+    var = &p->vars[ORC_VAR_P1 + i];
+    if (var->size && var->param_type == ORC_PARAM_TYPE_DOUBLE) {
+      fprintf(output, "  orc_union64 _orc_p%d;\n", i + 1);
+    }
+  }
+  for(i=0;i<8;i++){
+    var = &p->vars[ORC_VAR_P1 + i];
+    if (var->size && var->param_type == ORC_PARAM_TYPE_DOUBLE) {
+      fprintf(output, "  _orc_p%d.i = (ex->params[%s] & 0xffffffff) | ((orc_uint64)(ex->params[%s]) << 32);\n",
+          i + 1, enumnames[ORC_VAR_P1 + i], enumnames[ORC_VAR_T1 + i]);
+    }
+  }
   fprintf(output, "  %s (", p->backup_name);
   for(i=0;i<4;i++){
     var = &p->vars[ORC_VAR_D1 + i];
@@ -737,7 +751,8 @@ output_executor_backup_call (OrcProgram *p, FILE *output)
           fprintf(output, "(ex->params[%s] & 0xffffffff) | ((orc_uint64)(ex->params[%s]) << 32)", enumnames[ORC_VAR_P1 + i], enumnames[ORC_VAR_T1 + i]);
           break;
         case ORC_PARAM_TYPE_DOUBLE:
-          /* FIXME */
+          CALL_ARG_SEP();
+          fprintf(output, "_orc_p%d.f", i + 1);
           break;
         default:
           ORC_ASSERT(0);
